@@ -43,6 +43,9 @@ fn any_decimal(buf: &mut [u8; 4]) -> (usize, usize) {
     (len, v)
 }
 
+/// error paths of the setters build their messages with format!; message text is not the subject
+pub fn stub_format(_a: core::fmt::Arguments<'_>) -> String { String::new() }
+
 fn set_all(which: u8) {
     let mut buf = [0u8; 4];
     let (len, v) = any_decimal(&mut buf);
@@ -62,10 +65,13 @@ fn set_all(which: u8) {
 
 #[kani::proof]
 #[kani::unwind(6)]
+#[kani::stub(alloc::fmt::format, stub_format)]
 pub fn c13_set_hash() { set_all(0); }
 #[kani::proof]
 #[kani::unwind(6)]
+#[kani::stub(alloc::fmt::format, stub_format)]
 pub fn c13_set_threads() { set_all(1); }
 #[kani::proof]
 #[kani::unwind(6)]
+#[kani::stub(alloc::fmt::format, stub_format)]
 pub fn c13_set_move_overhead() { set_all(2); }
